@@ -1,11 +1,9 @@
 import Pfl
-#print axioms Pfl.LabelCodec.readPdaLabel_pdaLabel
-#print axioms Pfl.LabelCodec.readFstLabel_fstLabel
-#print axioms Pfl.LabelCodec.readPdaLabel_pdaLabel_clear
-#print axioms Pfl.LabelCodec.readFstLabel_fstLabel_clear
-#print axioms Pfl.Codec.read_varToText
-#print axioms Pfl.Codec.read_terToText
-#print axioms Pfl.Codec.read_capitalised_unmarked
+#print axioms Pfl.CFG.interRegex_lang
+#print axioms Pfl.CFG.interD_lang
+#print axioms Pfl.PDA.inter_lang
+#print axioms Pfl.PDA.accFinal_iff
+#print axioms Pfl.PDA.accEmpty_iff
 #print axioms Pfl.CFG.cfgMem_iff
-#print axioms Pfl.Rx.thompson_lang
-#print axioms Pfl.ENFA.langDiff_none_iff
+#print axioms Pfl.ENFA.member_iff
+#print axioms Pfl.CFG.toNormalForm_lang
